@@ -690,6 +690,7 @@ decode_tlv_from_hex_string(const char *datastring) {
 				*dp = ' ';
 			*dp = '\0';
 			fprintf(stderr, "%s^ <- here\n", (char *)data);
+			FREEMEM(data);
 			return -1;
 		}
         /* clang-format on */
@@ -711,9 +712,11 @@ decode_tlv_from_hex_string(const char *datastring) {
     switch(len) {
     case -1:
         fprintf(stderr, "TAG: Fatal error decoding tag\n");
+        FREEMEM(data);
         return -1;
     case 0:
         fprintf(stderr, "TAG: More data expected\n");
+        FREEMEM(data);
         return -1;
     default:
         printf("TAG: ");
@@ -740,9 +743,11 @@ decode_tlv_from_hex_string(const char *datastring) {
         switch(len) {
         case -1:
             fprintf(stderr, "LEN: Fatal error decoding length\n");
+            FREEMEM(data);
             return -1;
         case 0:
             fprintf(stderr, "LEN: More data expected\n");
+            FREEMEM(data);
             return -1;
         default:
             if(tlv_len == (ber_tlv_len_t)-1)
@@ -752,6 +757,7 @@ decode_tlv_from_hex_string(const char *datastring) {
         }
     }
 
+    FREEMEM(data);
     return 0;
 }
 
